@@ -236,9 +236,9 @@ class C08(Check):
         yield gen_case(rng, i, 2, False, 0, EC, known_hang=True)
         i += 1
         while i < n:
-            nprocs = rng.choice([2, 3, 4] if tier == "quick" else [2, 3, 4, 5])
+            nprocs = rng.choice([2, 3, 4, 5] if tier == "quick" else [2, 3, 4, 5, 7])
             safe = rng.random() < 0.25
-            aggr = rng.choice([0, 0, 0, 1, 2]) if not safe else 0
+            aggr = rng.choice([0, 0, 0, 1, 2, 3]) if not safe else 0
             yield gen_case(rng, i, nprocs, safe, aggr, EC)
             i += 1
 
